@@ -19,6 +19,7 @@
 //!   `dp.take`                       -> `ev cc=<0|1> p=<-|slot:addr:Event> ; <summary>`   take_last_events()
 //!   `dp.piq <slot> <hex>`           -> `ok ; <summary>` | `err ; <summary>`   pi_q_mut().copy_from_slice (err: no such slot / other length)
 //!   `dp.diagreq <slot>`             -> `ok ; <summary>` | `err ; <summary>`   request_diagnostics()
+//!   `dp.resetaddr <slot> <addr>`    -> `ok ; <summary>` | `err ; <summary>`   get_mut(h).reset_address(addr) (F14: also while a request is in flight)
 //! summary = `st=<S|C|O>` then per occupied slot ` [<slot> <addr> <is_live><is_running> i=<pi_i> q=<pi_q> d=<last_diagnostics>]`
 //!   last_diagnostics = `-` | `<flags hex4>/<ident>/<master|->/<ext raw hex|none|panic>`
 //!   `dp.env <fdl|->`                -> `env`    marker: the history was produced by a real FdlActiveStation
@@ -336,6 +337,18 @@ fn step(st: &mut Option<Live>, line: &str) -> String {
                 None => Ok(Some("err".to_string())),
             },
             Err(_) => Err(()),
+        },
+        ["dp.resetaddr", slot, addr] => match (slot.parse::<usize>(), addr.parse::<u8>()) {
+            (Ok(i), Ok(a)) => match l.handles.get(i).copied() {
+                Some(h) => Ok(guarded(|| {
+                    l.dp.get_mut(h).reset_address(a);
+                    // handles carry the address: refresh them (slots are filled from the front)
+                    l.handles = l.dp.iter().map(|(h, _)| h).collect();
+                    "ok".to_string()
+                })),
+                None => Ok(Some("err".to_string())),
+            },
+            _ => Err(()),
         },
         ["dp.operate"] => Ok(guarded(|| {
             l.dp.enter_operate();
@@ -891,6 +904,8 @@ struct Case<'a> {
     cfg: MCfg,
     now: i64,
     gone: bool,
+    /// per-mille per opportunity: `reset_address()` on some peripheral (F14)
+    reset_pm: u64,
 }
 
 #[derive(Clone, Copy)]
@@ -919,7 +934,7 @@ const CLEAN: Plan = Plan { lose_req: 0, lose_rep: 0, nocb: 0, power: 0, weird: 0
 
 impl<'a> Case<'a> {
     fn start(ops: &'a mut Vec<String>, ex: &'a mut Exec, cfg: MCfg, operate: bool) -> Case<'a> {
-        let mut c = Case { ops, ex, cfg, now: 1000, gone: false };
+        let mut c = Case { ops, ex, cfg, now: 1000, gone: false, reset_pm: 0 };
         let line = c.cfg.text();
         let o = c.op(line);
         if !o.starts_with("ok") {
@@ -971,11 +986,34 @@ impl<'a> Case<'a> {
             }
         }
     }
+    /// `reset_address()` on a random peripheral: to a free address, to the address of another configured
+    /// peripheral, or to its own old address; the simulated device follows half of the time.
+    fn maybe_reset(&mut self, rng: &mut Rng, slaves: &mut [Slave]) {
+        if self.reset_pm == 0 || self.cfg.ps.is_empty() || rng.below(1000) >= self.reset_pm {
+            return;
+        }
+        let i = rng.below(self.cfg.ps.len() as u64) as usize;
+        let old = self.cfg.ps[i].addr;
+        let new = match rng.below(6) {
+            0 => old,
+            1 | 2 if self.cfg.ps.len() > 1 => rng.pick(&self.cfg.ps).addr,
+            _ => 3 + rng.below(60) as u8,
+        };
+        self.op(format!("dp.resetaddr {i} {new}"));
+        self.cfg.ps[i].addr = new;
+        if rng.bool() {
+            if let Some(s) = slaves.get_mut(i) {
+                s.addr = new;
+            }
+        }
+    }
+
     /// One `transmit_telegram` and the callback that answers it.
     fn step(&mut self, rng: &mut Rng, slaves: &mut [Slave], plan: &Plan) {
         if self.gone {
             return;
         }
+        self.maybe_reset(rng, slaves);
         if rng.below(1000) < plan.user {
             self.user_call(rng);
         }
@@ -1005,6 +1043,8 @@ impl<'a> Case<'a> {
         if rng.below(1000) < plan.nocb {
             return;
         }
+        // F14: the address is changed while the request is in flight; the reply still comes from `exp`
+        self.maybe_reset(rng, slaves);
         self.now += 1 + rng.below(300) as i64;
         let own = self.cfg.own;
         let mut reply: Option<String> = None;
@@ -1067,6 +1107,9 @@ fn bus_case(ops: &mut Vec<String>, ex: &mut Exec, rng: &mut Rng, n: usize, steps
         }
     }
     let mut c = Case::start(ops, ex, cfg, true);
+    if plan.user > 0 && steps % 3 == 0 {
+        c.reset_pm = 25;
+    }
     for _ in 0..steps {
         c.step(rng, &mut slaves, &plan);
         if c.gone {
@@ -1125,6 +1168,11 @@ fn drive_sym(c: &mut Case, sym: &str, user: bool) {
     if c.gone {
         return;
     }
+    // `r<sym>`: reset_address() of slot 0 between the request and its reply (F14)
+    let (sym, reset) = match sym.strip_prefix('r') {
+        Some(rest) => (rest, true),
+        None => (sym, false),
+    };
     if user {
         c.op("dp.diagreq 0".to_string());
     }
@@ -1134,6 +1182,15 @@ fn drive_sym(c: &mut Case, sym: &str, user: bool) {
         c.take();
         if let TxObs::Sent { exp: Some(a), .. } = parse_tx(&o) {
             let p = c.cfg.ps.iter().find(|p| p.addr == a).cloned();
+            if reset {
+                let new = match c.now % 3 {
+                    0 => c.cfg.ps[0].addr,
+                    1 if c.cfg.ps.len() > 1 => c.cfg.ps[1].addr,
+                    _ => if c.cfg.ps[0].addr == 7 { 8 } else { 7 },
+                };
+                c.op(format!("dp.resetaddr 0 {new}"));
+                c.cfg.ps[0].addr = new;
+            }
             c.now += 200;
             match p.and_then(|p| sym_reply(sym, c.cfg.own, &p)) {
                 Some(t) => c.op(format!("dp.reply {} {a} {t}", c.now)),
@@ -1228,8 +1285,9 @@ fn wild_case(ops: &mut Vec<String>, ex: &mut Exec, rng: &mut Rng) {
                 c.op(format!("dp.piq {slot} {}", hex(&rng.bytes(n))))
             }
             12 => c.op(format!("dp.diagreq {}", rng.below(4))),
-            _ => match rng.below(3) {
+            _ => match rng.below(4) {
                 0 => c.op("dp.operate".to_string()),
+                1 => c.op(format!("dp.resetaddr {} {}", rng.below(4), rng.u8() & 0x7f)),
                 _ => {
                     let a = rng.u8() & 0x7f;
                     let p = random_pcfg(rng, a, false);
@@ -1305,7 +1363,7 @@ pub fn gen(ops: &mut Vec<String>, seed: u64, thorough: bool) {
         }
     }
     // user calls and the remaining reply kinds at every point of short sequences from data exchange
-    let alpha2 = ["T", "uT", "Xok", "uXok", "Dok", "uDok", "Xsap", "Dcf", "Dn", "S"];
+    let alpha2 = ["T", "uT", "Xok", "uXok", "Dok", "uDok", "Xsap", "Dcf", "Dn", "S", "rXok", "rDok", "rT", "rS"];
     let depth2 = if thorough { 4 } else { 3 };
     let total2 = alpha2.len().pow(depth2 as u32);
     for code in 0..total2 {
